@@ -89,7 +89,7 @@ def observe_row(rid, entry, text, spec, l1, fl=0, first=None):
         obs, _ = observe.outcome(entry, text, parser=parser)
     obs = dict(obs)
     at = obs.pop("at")
-    return {"id": rid, "entry": entry, "lines": spec, "nl": len(text.splitlines()), "obs": obs, "fl": fl}, at
+    return {"id": rid, "entry": entry, "lines": spec, "nl": len(text.splitlines()), "obs": obs, "fl": fl, "raw": False}, at
 
 
 def mutations(lines, alphabet, rnd, limit):
@@ -182,6 +182,25 @@ def _job(job):
         row, at = observe_row(rid, entry, text, spec, l1, fl, (first[0], text1))
         return row, {"kind": kind, "entry": entry, "text": text, "l1": l1, "l2": l2, "at": at, "first": [first[0], text1]}
     text, spec, l1, l2 = rr.text(entry, lines)
+    if kind == "cut":
+        # one line of the rendered text truncated inside (fl = line, seeded position; a table row may end right behind a
+        # backslash, a doc-string fence may lose a quote, a keyword its colon ...).  No abstract line sequence describes such
+        # a text: the row is judged by the outcome-class clauses only (raw)
+        parts = text.splitlines(True)
+        k = min(fl, len(parts)) - 1
+        if k >= 0:
+            body = parts[k].rstrip("\r\n")
+            eol = parts[k][len(body):]
+            stripped = body.rstrip()
+            # cut positions that matter most: right behind every backslash / pipe / quote, else anywhere
+            hot = [i + 1 for i, ch in enumerate(stripped) if ch in u'\\|"@:<'] + [len(stripped) - 1]
+            cands = [c for c in hot if 0 < c < len(body)] or list(range(1, max(2, len(body))))
+            cutat = rr.rnd.choice(cands) if rr.rnd.random() < 0.7 else rr.rnd.randint(1, max(1, len(body) - 1))
+            parts[k] = body[:cutat] + eol
+            text = u"".join(parts)
+        row, at = observe_row(rid, entry, text, [], l1, 0)
+        row["raw"] = True
+        return row, {"kind": kind, "entry": entry, "text": text, "l1": l1, "l2": l2, "at": at, "first": None}
     row, at = observe_row(rid, entry, text, spec, l1, fl)
     return row, {"kind": kind, "entry": entry, "text": text, "l1": l1, "l2": l2, "at": at, "first": None}
 
@@ -229,12 +248,18 @@ def run(chk):
         add("base", "feature", base)
         for kind, lines, fl in mutations(base, alphabet, rnd, per_doc):
             add(kind, "feature", lines, fl)
+        # ... and truncations INSIDE a line: every line of the document, a few seeded cut positions each
+        for k in range(len(base)):
+            for _ in range(2 if quick else 6):
+                add("cut", "feature", base, k + 1)
     # fragments for the secondary entry points
     frags = docs.fragments(by_code)
     for entry, base in frags:
         add("base", entry, base)
         for kind, lines, fl in mutations(base, alphabet, rnd, 150 if quick else 600):
             add(kind, entry, lines, fl)
+        for k in range(len(base)):
+            add("cut", entry, base, k + 1)
     # (3) soups
     for _ in range(4000 if quick else 60000):
         entry = rnd.choice(["feature"] * 6 + ["rule", "scenario", "steps", "steps", "tags"])
